@@ -143,7 +143,7 @@ func genNetEvent(t *rapid.T, n *model.Net) (netEvent, bool) {
 		if len(cs) == 0 {
 			return netEvent{}, false
 		}
-		return netEvent{Kind: "part", U: u, Ch: rapid.SampledFrom(cs).Draw(t, "ch"), S: rapid.SampledFrom([]string{"", "bye", "see you later"}).Draw(t, "msg")}, true
+		return netEvent{Kind: "part", U: u, Ch: rapid.SampledFrom(cs).Draw(t, "ch"), S: rapid.SampledFrom([]string{"", "bye", "see you later", "gone :( for now"}).Draw(t, "msg")}, true
 	case "quit":
 		us := online(func(i int) bool { return i != n.Me })
 		if len(us) == 0 {
@@ -194,7 +194,7 @@ func genNetEvent(t *rapid.T, n *model.Net) (netEvent, bool) {
 		}
 		ch := rapid.SampledFrom(cs).Draw(t, "ch")
 		ms := n.SortedMembers(n.Chans[ch])
-		return netEvent{Kind: "topic", U: rapid.SampledFrom(ms).Draw(t, "by"), Ch: ch, S: rapid.SampledFrom([]string{"", "new topic", "topic: with colon", " lead"}).Draw(t, "topic")}, true
+		return netEvent{Kind: "topic", U: rapid.SampledFrom(ms).Draw(t, "by"), Ch: ch, S: rapid.SampledFrom([]string{"", "new topic", "topic: with colon", " lead", "rules :) be nice", "a :: b", ":starts with colon", "trailing space "}).Draw(t, "topic")}, true
 	case "umode":
 		return netEvent{Kind: "umode", S: rapid.SampledFrom([]string{"+i", "+iw", "-i", "+x-w", "+B"}).Draw(t, "umode")}, true
 	case "mode":
